@@ -154,6 +154,15 @@ func runC06(c *Ctx) {
 			c.Case("gcm.seal", full, false, req)
 			// implementation / model of the fused algorithm (Model.GCM.seal) / SP 800-38D (Spec.GCM.sealGCM)
 			c.Check3("gcm.seal", full, req, sreq, impl)
+			// the same call IN PLACE (dst = pt[:0], room for the tag behind the plaintext): must give the same bytes
+			// (seeded C10-c: a tail built directly in dst zeroes plaintext bytes before they are read)
+			buf := make([]byte, len(pt), len(pt)+ts)
+			copy(buf, pt)
+			implIn := try(func() string { return "ok " + hexOrDash(a.Seal(buf[:0], nonce, buf, aad)) })
+			c.Case("gcm.seal", full+"/inplace", false, req)
+			if implIn != impl {
+				c.Disagree(Disagreement{Kind: "impl!=spec", Class: full + "/inplace", Request: req, Impl: implIn, Spec: impl + " (the same call with dst = nil, checked three-way)", Stream: "gcm.seal"})
+			}
 		}
 	}
 	key := parseHexNil("0123456789abcdeffedcba9876543210")
